@@ -3,9 +3,11 @@ Driver side of C09:
   chk <function> <scalars…>   the regenerated argument-check cascade of <function> on the scalar
                               arguments, all pointers valid:  `pass` or the err_t number
   path …                      see Bee2V.C15.Drv
+  keyclass / ptclass          the Spec's verdict on a private key / a point (boundary sweep)
 -/
 import Bee2V.C15.Drv
 import Bee2V.Gen.C09Checks
+import Bee2V.C09.Spec
 namespace Bee2V.C09.Drv
 open Bee2V.Proto
 
@@ -18,6 +20,25 @@ def handleChk : List String → String
       | none => "unknown"
       | some none => "pass"
       | some (some e) => toString e
+  | _ => "bad-op"
+
+/-- `keyclass <d hex LE> <q hex LE> <z|n>` -> `valid` / `504` (z: zero is a valid key) -/
+def handleKey : List String → String
+  | [d, q, z] =>
+    match parseHex d, parseHex q with
+    | some d, some q =>
+      let d := leNat d; let q := leNat q
+      if (if z == "z" then decide (Spec.PrivkeyOkZ d q) else decide (Spec.PrivkeyOk d q)) then "valid" else "504"
+    | _, _ => "bad-op"
+  | _ => "bad-op"
+
+/-- `ptclass <p> <a> <b> <x> <y>` (hex LE) -> `valid` / `505` -/
+def handlePt : List String → String
+  | [p, a, b, x, y] =>
+    match parseHex p, parseHex a, parseHex b, parseHex x, parseHex y with
+    | some p, some a, some b, some x, some y =>
+      if decide (Spec.PointOk (leNat p) (leNat a) (leNat b) (leNat x) (leNat y)) then "valid" else "505"
+    | _, _, _, _, _ => "bad-op"
   | _ => "bad-op"
 
 end Bee2V.C09.Drv
